@@ -191,10 +191,13 @@ func (v *FnVC) canInline(fr *frame, callee *ssa.Function) bool {
 		return false // higher-order framework functions are summarised by the effects of their callbacks
 	}
 	n := 0
+	ownClosure := callee.Parent() != nil && isAncestor(v.fn, callee) && v.w.Contracts.ByFunc[callee] == nil
 	for _, b := range callee.Blocks {
 		n += len(b.Instrs)
 		for _, s := range b.Succs {
-			if isBackEdge(b, s) {
+			if isBackEdge(b, s) && !ownClosure {
+				// loops of ordinary callees need the callee's own invariants; loops of the function's own
+				// anonymous closures are cut with the auto-invariants only (no unchecked user invariant involved)
 				return false
 			}
 		}
@@ -394,6 +397,11 @@ func (v *FnVC) heapDeps(callee *ssa.Function) []famSort {
 	}
 	if v.depsCache == nil {
 		v.depsCache = map[*ssa.Function][]famSort{}
+	}
+	if con := v.w.Contracts.ByFunc[callee]; con != nil && con.Stable {
+		v.note("pure function " + FuncKey(callee) + " is declared stable: its result is assumed not to depend on heap changes made by the verified function")
+		v.depsCache[callee] = nil
+		return nil
 	}
 	mine := v.w.mods.Of(v.fn)
 	reads := v.w.mods.Reads(callee)
